@@ -91,6 +91,17 @@ fn one_case(ctx: &Ctx, case: u64, l: &mut Local) {
         s.strat = gen::gen_strategy(&mut r, &s.u, cfg.strat);
         l.count("boundary.many-objects-credentials");
     }
+    if case % 40 == 9 && !cfg.strat.is_custom() {
+        // member names that read like paths of other members: distinct objects all the same
+        s.u["a.b"] = json!({"x#1a;": 1});
+        s.u["a"] = json!({"b": {"x#1b;": 1}, "c[0]": {"y#1c;": 2}, "c": [{"y#1d;": 2}]});
+        s.u["list[0]"] = json!({"y#1e;": 1});
+        s.u["list"] = json!([{"y#1f;": 1}, {}]);
+        s.u["status"] = json!({"status_list": {"idx": 7, "uri": "https://s.example/1"}});
+        s.u["vct"] = json!({"n#1g;": {}});
+        s.strat = gen::gen_strategy(&mut r, &s.u, cfg.strat);
+        l.count("boundary.path-like-names-credentials");
+    }
     let class = cfg.profile.name();
     let reps = if case % 40 == 7 { 2 } else { 4 + r.below(13) };
     let jwk = cfg.holder.map(|(a, i)| keys::holder_jwk_json_canonical(a, i));
